@@ -86,7 +86,18 @@ func TestDumpRegress(t *testing.T) {
 		{Kind: ItStmt, Text: "MOV AX,1", Cls: "regress"}, {Kind: ItDir, Text: "[BITS 32]"}, {Kind: ItStmt, Text: "MOV EAX,1", Cls: "regress"},
 		{Kind: ItLabel, Name: "qlbl"}, {Kind: ItMarker, Ser: 1, Name: "qlbl"}, {Kind: ItMarker, Ser: 2, Name: "$table"},
 		{Kind: ItStmt, Text: "DD qlbl", Cls: "table", Ref: "qlbl", RefAs: "table"}}}, "all statements encoded in the last BITS mode")
+	memref := func(mode int, org int64, text string) Prog {
+		return Prog{Mode: mode, Org: org, Items: []Item{
+			{Kind: ItStmt, Text: "DB 1,2,3", Cls: "regress"}, {Kind: ItLabel, Name: "qlbl"}, {Kind: ItMarker, Ser: 1, Name: "qlbl"},
+			{Kind: ItMarker, Ser: 2}, {Kind: ItStmt, Text: text, Cls: "ref.mem", Ref: "qlbl", RefAs: "mem", Ser: 2},
+			{Kind: ItMarker, Ser: 3, Name: "$table"}, {Kind: ItStmt, Text: "DD qlbl", Cls: "table", Ref: "qlbl", RefAs: "table"}}}
+	}
+	write("C03", "fixed-6c61470-mov-cx-mem-label", memref(16, 0x7c00, "MOV CX,[qlbl]"), "a label inside a memory operand was assembled as address 0")
+	write("C03", "fixed-6c61470-mov-moffs-label", memref(16, 0x100, "MOV [qlbl],AL"), "label as moffs address was 0")
+	write("C03", "fixed-6c61470-add-mem-label-32", memref(32, 0x280000, "ADD BYTE [qlbl],1"), "label as disp32 was 0")
 	// ---- C07
+	write("C07", "fixed-6c61470-mem-undef", mkShape(16, "MOV", []string{"r16", "mundef"}, 1), "an undefined symbol as the address of a memory operand went unreported (address 0)")
+	write("C07", "fixed-6c61470-mem-label", mkShape(16, "MOV", []string{"r16", "mlabel"}, 1), "a defined label as the address of a memory operand was assembled as 0")
 	write("C07", "fixed-6eb0d51-hlt-5", mkShape(16, "HLT", []string{"imm"}, 0), "operands of a no-operand instruction ignored")
 	write("C07", "fixed-2d62a15-not-ds", mkShape(16, "NOT", []string{"sreg"}, 3), "sreg taken for r16")
 	write("C07", "fixed-2d62a15-add-ds-ax", mkShape(16, "ADD", []string{"sreg", "r16"}, 3), "sreg taken for r16")
@@ -109,6 +120,11 @@ func TestDumpRegress(t *testing.T) {
 	write("C13", "fixed-equ-mem-self", CrashCase{Src: "A EQU [A]\n\tMOV AX,A\n", Kind: "mutant"}, "self reference through a memory operand")
 	write("C13", "fixed-equ-far-self", CrashCase{Src: "A EQU 8:A\n\tJMP A\n", Kind: "mutant"}, "self reference through a far pointer")
 	write("C13", "fixed-equ-doubling", CrashCase{Src: scaledInput("equdouble", 10000), Kind: "scale", Family: "equdouble"}, "40-level doubling chain: 2^40 expansions")
+	write("C13", "fixed-94c7a44-resb-oom", CrashCase{Src: "\tDB 1\n\tRESB 0xFFFFFFFFFF\n\tDB 2\n", Kind: "mutant"}, "RESB of 1 TiB: fatal error: out of memory")
+	write("C13", "fixed-94c7a44-resb-makeslice", CrashCase{Src: "\tRESB 0x7fffffffffffffff\n", Kind: "mutant"}, "RESB 2^63-1: panic makeslice len out of range")
+	write("C13", "fixed-94c7a44-resb-2g", CrashCase{Src: "qa:\tRESB 2147483648 ; wraps the location counter\n\tDW qa\n", Kind: "mutant"}, "RESB 2^31: location counter wrapped negative, 2 GiB of output")
+	write("C19", "fixed-3d93c4e-utf8-string", CLICase{Kind: "prog", Src: "\tDB \"caf\u00e9\",1\n\tDB \"\u65e5\u672c\"\n"}, "a UTF-8 string literal was re-read as Shift_JIS by the command: DB \"é\" gave EF BE 83 EF BD A9")
+	write("C11", "fixed-055f81f-forward-minus", EquCase{Mode: 16, Defs: []EquDef{{Name: "qa", Body: "1", Val: 1, Dep: 1}, {Name: "qb", Body: "2", Val: 2, Dep: 1}, {Name: "qx", Body: "10-qa-qb", Val: 7, Dep: 2}}, Perm: []int{2, 0, 1}, Stmts: []string{"MOV AX,qx", "DB qx+1"}, Sites: []string{"imm16", "db"}}, "10-a-b with a and b defined further down evaluated to 9: the minus of the first unfoldable term was dropped")
 	// ---- C04
 	write("C04", "seeded-C04-2-chain", BranchCase{Mode: 16, Org: -1, Kind: "chain", Trailing: true, Chain: []string{"JMP", "JE"}, Gaps: []int{123, 2}}, "widening the inner branch pushes the outer one over rel8 (needs two re-assembly rounds)")
 	write("C04", "seeded-C04-2-chain3", BranchCase{Mode: 16, Org: 0x7c00, Kind: "chain", Trailing: true, Chain: []string{"JC", "JMP", "JNZ"}, Gaps: []int{121, 1, 1}}, "three nested branches on the rel8 boundary")
